@@ -523,6 +523,11 @@ class RejectionCB(Evaluator):
                 ope_rewards.clear()
                 c = min(percentile(Q,self._cpct,sort=False), self._cmax)
 
+            #What the learner reported has to be gone before the next interaction is read. Reading can resume a
+            #logged environment's own evaluation (lazily, behind a cache) which puts whatever it finds here into
+            #the interaction it is creating, and so into the rows of every other learner on that environment.
+            info.clear()
+
         if ope_rewards:
             pass
             #If we hit this it means that there was rejected data at the end of the
